@@ -48,6 +48,18 @@ func Point(obj any, what string) {
 	}
 }
 
+// YieldAfterUnlock makes every release under the scheduler a scheduling point as well: whatever a thread does
+// between releasing a lock and its next acquisition (atomics, unsynchronised accesses, publishing a value computed
+// under the lock) can then be overtaken by the other threads. It multiplies the schedule space, so only harnesses
+// with small programs switch it on (phealth); the tracker programs rely on Point at the output writes instead.
+var YieldAfterUnlock bool
+
+func afterUnlock(obj any) {
+	if YieldAfterUnlock {
+		Ctl.Acquire(obj, "AfterUnlock", always)
+	}
+}
+
 // Mutex mirrors sync.Mutex.
 type Mutex struct {
 	real sync.Mutex
@@ -113,8 +125,9 @@ func (m *Mutex) Unlock() {
 			panic("vsync: unlock of unlocked mutex")
 		}
 		m.held = false
-		// (a release is not a scheduling point of its own: the next visible step of the thread - its
-		// next lock acquisition or its next write to the shared output, see Point - is one)
+		// (by default a release is not a scheduling point of its own: the next visible step of the thread -
+		// its next lock acquisition or its next write to the shared output, see Point - is one)
+		afterUnlock(m)
 		return
 	}
 	m.real.Unlock()
@@ -145,6 +158,7 @@ func (m *RWMutex) Unlock() {
 			panic("vsync: unlock of unlocked rwmutex")
 		}
 		m.writer = false
+		afterUnlock(m)
 		return
 	}
 	m.real.Unlock()
@@ -165,6 +179,7 @@ func (m *RWMutex) RUnlock() {
 			panic("vsync: runlock of unlocked rwmutex")
 		}
 		m.readers--
+		afterUnlock(m)
 		return
 	}
 	m.real.RUnlock()
